@@ -7,42 +7,7 @@ using namespace vh;
 using namespace Pistache::Http;
 std::string excClass(const std::exception& e);
 
-static std::string lowerHex(std::string s) { for (auto& c : s) c = static_cast<char>(tolower(static_cast<unsigned char>(c))); return toHex(s); }
-static std::string joinSorted(std::vector<std::string> v)
-{
-    std::sort(v.begin(), v.end()); std::string o;
-    for (size_t i = 0; i < v.size(); ++i) { if (i) o += ","; o += v[i]; }
-    return o.empty() ? "-" : o;
-}
-static const char* methName(Method m)
-{
-    switch (m) {
-#define METHOD(val, s) case Method::val: return #val;
-        HTTP_METHODS
-#undef METHOD
-    }
-    return "?";
-}
-
-static std::string dumpCommon(const Message& m)
-{
-    std::vector<std::string> typed, raw, cookies;
-    for (auto& h : m.headers().list()) { std::ostringstream os; h->write(os); typed.push_back(std::string(h->name()) + "=" + toHex(os.str())); }
-    for (auto& kv : m.headers().rawList()) raw.push_back(lowerHex(kv.second.name()) + ":" + toHex(kv.second.value()));
-    for (auto it = m.cookies().begin(); it != m.cookies().end(); ++it) cookies.push_back(toHex(it->name) + ":" + toHex(it->value));
-    return "typed=" + joinSorted(typed) + " raw=" + joinSorted(raw) + " cookies=" + joinSorted(cookies) + " body=" + toHex(m.body());
-}
-static std::string dumpReq(const Request& r)
-{
-    std::vector<std::string> q;
-    for (auto it = r.query().parameters_begin(); it != r.query().parameters_end(); ++it) q.push_back(toHex(it->first) + ":" + toHex(it->second));
-    return std::string("method=") + methName(r.method()) + " res=" + toHex(r.resource()) + " ver=" + (r.version() == Version::Http10 ? "10" : "11")
-        + " q=" + joinSorted(q) + " " + dumpCommon(r);
-}
-static std::string dumpResp(const Response& r)
-{
-    return "code=" + std::to_string(static_cast<int>(r.code())) + " " + dumpCommon(r);
-}
+#include "dump.h"
 
 static bool parseCuts(const std::string& s, std::vector<size_t>& cuts)
 {
